@@ -505,12 +505,16 @@ def gen_program(rng, opts=None):
                 m["stmts"].insert(r.randint(0, len(m["stmts"])), st)
                 if dn not in m["stmt_domains"]:
                     m["stmt_domains"].append(dn)
-    if o.get("shadows") and r.random() < 0.4 and not any(w[0] == "rename" for m in mods for w in m["wrap"]):
+    rename_keys = {k_ for m in mods for w in m["wrap"] if w[0] == "rename" for k_ in w[1]}
+    if o.get("shadows") and r.random() < 0.4 and len(rename_keys) < len(domains):
         # a module may define a clock domain of its own under a name that is also defined further up: inside that module (and
         # below it) the name means the module's own domain, everywhere else the outer one.  The shadowing domain gets its own
         # clock / reset lines (domain entry "<name>@<k>", never used as a name in statements)
         k = 0
-        base = list(domains)
+        # (a domain that some DomainRenamer of the program renames *from* is never shadowed: what a renamer does to a domain
+        # defined inside the design it wraps is not specified; one it renames *to* may be - the target is the domain of that name
+        # outside the wrapped design, whatever is defined inside)
+        base = [d for d in domains if d["name"] not in rename_keys]
         for m in mods:
             if k < 2 and r.random() < 0.35:
                 b = r.choice(base)
